@@ -186,11 +186,14 @@ class PtyProc:
                 self.p.wait(timeout=5)
         except Exception:
             pass
-        for fd in (self.master, self.slave):
-            try:
-                os.close(fd)
-            except OSError:
-                pass
+        for name in ("master", "slave"):
+            fd = getattr(self, name)
+            if fd is not None:
+                setattr(self, name, None)  # never close twice: the number may already belong to another session
+                try:
+                    os.close(fd)
+                except OSError:
+                    pass
 
 
 def termios_diff(a, b):
